@@ -46,8 +46,42 @@ def gen_protos(seed: int, **kw) -> Dict[str, str]:
     return render_set(SchemaGen(rng, **kw).gen_set())
 
 
+FEATURES = {
+    "map_only": "message M { map<string, int32> m = 1; }",
+    "map_msg_only": "message V { int32 x = 1; } message M { map<int32, V> m = 1; }",
+    "repeated_only": "message M { repeated int32 r = 1; }",
+    "optional_only": "message M { optional int32 o = 1; }",
+    "wrapper_only": 'import "google/protobuf/wrappers.proto"; message M { google.protobuf.Int32Value w = 1; }',
+    "oneof_only": "message M { oneof g { int32 a = 1; string b = 2; } }",
+    "timestamp_only": 'import "google/protobuf/timestamp.proto"; message M { google.protobuf.Timestamp t = 1; }',
+    "duration_only": 'import "google/protobuf/duration.proto"; message M { google.protobuf.Duration d = 1; }',
+    "enum_only": "enum E { E_ZERO = 0; E_NEG = -1; } message M { E e = 1; }",
+    "scalar_only": "message M { int32 x = 1; }",
+    "empty_only": "message M { }",
+    "service_only": "message M { int32 x = 1; } service S { rpc U(M) returns (M); rpc SS(stream M) returns (stream M); }",
+    "recursive_only": "message M { M child = 1; }",
+    "deprecated_only": "message M { option deprecated = true; int32 x = 1 [deprecated = true]; }",
+}
+
+
+def feature_protos() -> Dict[str, str]:
+    """one tiny package per single feature: exposes imports / helpers that are only emitted when
+    some OTHER feature happens to be present in the same package"""
+    out = {}
+    for name, body in FEATURES.items():
+        imports = ""
+        while body.startswith("import "):
+            imp, body = body.split(";", 1)
+            imports += imp + ";\n"
+            body = body.strip()
+        out[f"feat_{name}.proto"] = f'syntax = "proto3";\npackage vf.feat.{name};\n{imports}{body}\n'
+    return out
+
+
 def item_protos(item: dict) -> Dict[str, str]:
     k = item["kind"]
+    if k == "features":
+        return feature_protos()
     if k == "matrix":
         return matrix_protos()
     if k == "gen":
